@@ -50,7 +50,7 @@ def valid(case):
 
 
 # parse.class_ strips the 'Defaults to' sentence from the prose: one that is still there was not recognised
-POLICY = Policy(absent_default_ok=zero_or_none_ok, ret_absent_default_ok=zero_or_none_ok, sentence="removed")
+POLICY = Policy(absent_default_ok=zero_or_none_ok, ret_absent_default_ok=zero_or_none_ok, sentence="removed", summary="lines")
 
 
 def _extra(cir, got, text, discs, per, opts):
